@@ -234,7 +234,7 @@ fn word(rng: &mut Rng, lo: u64, hi: u64) -> String {
     (0..n).map(|_| (b'a' + rng.below(26) as u8) as char).collect()
 }
 
-fn sam_text(rng: &mut Rng, unmapped_only: bool, nrec: u64) -> String {
+fn sam_text(rng: &mut Rng, unmapped_only: bool, nrec: u64, big: bool) -> String {
     let mut s = String::from("@HD\tVN:1.6\tSO:unsorted\n");
     let nref = if unmapped_only { 0 } else { rng.range(1, 3) };
     for i in 0..nref {
@@ -246,8 +246,10 @@ fn sam_text(rng: &mut Rng, unmapped_only: bool, nrec: u64) -> String {
     if rng.chance(1, 2) {
         s.push_str(&format!("@CO\tc {}\n", word(rng, 0, 30)));
     }
+    let big_at = if big { rng.below(nrec.max(1)) } else { u64::MAX };
     for i in 0..nrec {
-        let l = rng.range(1, 30) as usize;
+        // a "big" fixture has one read long enough to fill a 64 KiB BGZF block by itself
+        let l = if i == big_at { 70000 } else { rng.range(1, 30) as usize };
         let seq = bases(rng, l);
         let qual: String = (0..l).map(|_| (b'!' + rng.below(40) as u8) as char).collect();
         let tags = match rng.below(4) {
@@ -271,7 +273,7 @@ fn sam_text(rng: &mut Rng, unmapped_only: bool, nrec: u64) -> String {
     s
 }
 
-fn vcf_text(rng: &mut Rng, nrec: u64) -> String {
+fn vcf_text(rng: &mut Rng, nrec: u64, big: bool) -> String {
     let mut s = String::from("##fileformat=VCFv4.3\n");
     let nref = rng.range(1, 2);
     for i in 0..nref {
@@ -295,10 +297,11 @@ fn vcf_text(rng: &mut Rng, nrec: u64) -> String {
     }
     s.push('\n');
     let mut pos = 1;
+    let big_at = if big { rng.below(nrec.max(1)) } else { u64::MAX };
     for i in 0..nrec {
         pos += rng.range(1, 100);
         let r = rng.below(nref);
-        let rbl = rng.range(1, 4) as usize;
+        let rbl = if i == big_at { 70000 } else { rng.range(1, 4) as usize };
         let rb = bases(rng, rbl).replace('N', "A");
         let alt = *rng.pick(&["C", "G,T", "."]);
         let info = match (rng.below(3), alt) {
@@ -407,7 +410,7 @@ fn fixture(fmt: &str, seed: u64) -> Fx {
     match fmt {
         "bgzf" | "mt" => {
             let big = seed % 7 == 0;
-            let n = rng.range(0, 4);
+            let n = rng.range(if big { 1 } else { 0 }, 4);
             let mut v = Vec::new();
             for i in 0..n {
                 let len = if big && i == 0 {
@@ -419,17 +422,19 @@ fn fixture(fmt: &str, seed: u64) -> Fx {
             }
             Fx::Chunks(v)
         }
-        "sam" | "samgz" | "bam" | "cram" => {
-            let nrec = rng.range(0, 5);
-            let text = sam_text(rng, fmt == "cram", nrec);
+        "sam" | "samgz" | "bam" | "bamraw" | "cram" => {
+            let big = seed % 7 == 0 && fmt != "cram";
+            let nrec = rng.range(if big { 1 } else { 0 }, 5);
+            let text = sam_text(rng, fmt == "cram", nrec, big);
             let mut r = sam::io::Reader::new(text.as_bytes());
             let h = r.read_header().expect("generated SAM header");
             let recs = r.record_bufs(&h).collect::<Result<Vec<_>, _>>().expect("generated SAM records");
             Fx::Sam(h, recs)
         }
-        "vcf" | "vcfgz" | "bcf" => {
-            let nrec = rng.range(0, 5);
-            let text = vcf_text(rng, nrec);
+        "vcf" | "vcfgz" | "bcf" | "bcfraw" => {
+            let big = seed % 7 == 0;
+            let nrec = rng.range(if big { 1 } else { 0 }, 5);
+            let text = vcf_text(rng, nrec, big);
             let mut r = vcf::io::Reader::new(text.as_bytes());
             let h = r.read_header().expect("generated VCF header");
             let recs = r.record_bufs(&h).collect::<Result<Vec<_>, _>>().expect("generated VCF records");
@@ -644,6 +649,21 @@ fn drive(fmt: &str, ending: &str, fx: &Fx, sink: TSink, tr: &mut Tr) {
                 _ => {}
             }
         }
+        ("bamraw", Fx::Sam(h, recs)) => {
+            // uncompressed BAM straight to the sink: every encoder write reaches the faulty sink
+            let mut w = bam::io::Writer::from(sink);
+            op!(tr, w.write_header(h));
+            for r in recs {
+                op!(tr, w.write_alignment_record(h, r));
+            }
+        }
+        ("bcfraw", Fx::Vcf(h, recs)) => {
+            let mut w = bcf::io::Writer::from(sink);
+            op!(tr, w.write_header(h));
+            for r in recs {
+                op!(tr, w.write_variant_record(h, r));
+            }
+        }
         ("cram", Fx::Sam(h, recs)) => {
             let mut w = cram::io::writer::Builder::default().verif_set_records_per_slice(2).build_from_writer(sink);
             op!(tr, w.write_header(h));
@@ -778,7 +798,9 @@ const FORMATS: &[(&str, &[&str])] = &[
     ("bgzf", &["X", "T", "D"]),
     ("mt", &["M"]),
     ("bam", &["T", "X", "R"]),
+    ("bamraw", &["-"]),
     ("bcf", &["T", "X"]),
+    ("bcfraw", &["-"]),
     ("cram", &["C"]),
     ("sam", &["-"]),
     ("samgz", &["T", "X"]),
@@ -797,7 +819,10 @@ const FORMATS: &[(&str, &[&str])] = &[
     ("crai", &["X"]),
 ];
 /// writers that hand every buffer straight to the sink with write_all (modelled as `lwfmt`)
-const UNBUFFERED: &[&str] = &["sam", "vcf", "fasta", "fastq", "gff", "gtf", "bed", "bai", "gzi", "fai"];
+const UNBUFFERED: &[&str] = &["sam", "vcf", "bamraw", "bcfraw", "fasta", "fastq", "gff", "gtf", "bed", "bai", "gzi", "fai"];
+/// formats with a "big" fixture class (seed % 7 == 0): more than one BGZF block of payload, so that
+/// the block flush inside write()/write_record is reached and can fail there
+const HAS_BIG: &[&str] = &["bgzf", "mt", "bam", "bamraw", "bcf", "bcfraw", "sam", "samgz", "vcf", "vcfgz"];
 
 struct RunOut {
     results: Vec<Result<(), Vec<io::ErrorKind>>>,
@@ -824,7 +849,9 @@ impl RunOut {
             .iter()
             .map(|r| match r {
                 Ok(()) => "Ok".to_string(),
-                Err(ch) => format!("E{}", kind_code(ch[0])),
+                // the innermost io::Error of the chain: some writers (VCF records) wrap the sink's
+                // error in an InvalidInput error of their own
+                Err(ch) => format!("E{}", kind_code(*ch.last().unwrap())),
             })
             .collect::<Vec<_>>()
             .join(",")
@@ -935,6 +962,28 @@ fn decode_inner(fmt: &str, bs: &[u8]) -> io::Result<String> {
             let mut data = Vec::new();
             r.read_to_end(&mut data)?;
             out.push_str(&format!("n={} {}", data.len(), fmt_bytes(&data)));
+        }
+        "bamraw" => {
+            let mut r = bam::io::Reader::from(bs);
+            let h = r.read_header()?;
+            out.push_str(&format!("H {}\n", sam_header_text(&h)));
+            let mut n = 0;
+            for rec in r.records() {
+                out.push_str(&format!("R {:?}\n", rec?));
+                n += 1;
+            }
+            out.push_str(&format!("n={n}"));
+        }
+        "bcfraw" => {
+            let mut r = bcf::io::Reader::from(bs);
+            let h = r.read_header()?;
+            out.push_str(&format!("H {}\n", vcf_header_text(&h)));
+            let mut n = 0;
+            for rec in r.record_bufs(&h) {
+                out.push_str(&format!("R {:?}\n", rec?));
+                n += 1;
+            }
+            out.push_str(&format!("n={n}"));
         }
         "bam" => {
             let mut r = bam::io::Reader::new(bs);
@@ -1455,7 +1504,11 @@ fn generate(rng: &mut Rng, tier: &str, w: &mut CaseWriter) {
     // --- L2: real unbuffered writers as `?`-chains
     for round in 0..(3 * scale) {
         for fmt in UNBUFFERED {
-            let seed = rng.next() >> 8;
+            let mut seed = rng.next() >> 8;
+            if seed % 7 == 0 {
+                seed += 1; // the big class is too long for a case line
+            }
+            let _ = round;
             let fx = Arc::new(fixture(fmt, seed));
             let Ok(rf) = reference(fmt, "-", &fx, true) else {
                 w.push("sweep", vec![fmt.to_string(), "-".into(), seed.to_string(), "2".into()]);
@@ -1515,7 +1568,14 @@ fn generate(rng: &mut Rng, tier: &str, w: &mut CaseWriter) {
     for round in 0..rounds {
         for (fmt, endings) in FORMATS {
             for ending in *endings {
-                let seed = rng.next() >> 8;
+                let mut seed = rng.next() >> 8;
+                if HAS_BIG.contains(fmt) {
+                    // round 0 (and every 4th) uses the big fixture class, the others never do
+                    seed -= seed % 7;
+                    if round % 4 != 0 {
+                        seed += 1 + round as u64 % 6;
+                    }
+                }
                 let nk = if thorough { INJECT.len() } else { 3 };
                 for j in 0..nk {
                     let kind = INJECT[(round * 3 + j) % INJECT.len()];
@@ -1558,6 +1618,9 @@ fn verdict_scripted(script: &[Fault], out: &RunOut, want: &[u8], ending: &str) -
             if out.failures > 0 && out.first_err().is_none() && out.bytes != want {
                 let in_drop = k >= out.calls_before_drop();
                 if in_drop && ending == "T" && is_partial_second_eof(want, &out.bytes) {
+                    if out.bytes.len() + 28 == want.len() {
+                        return Ok(()); // the second EOF block is missing entirely: the file is complete
+                    }
                     return Err(("second-eof-in-drop".into(), format!("fmt=bgzf ending=T results={} k={k}", out.fmt_results())));
                 }
                 if !(in_drop && ending == "D") {
@@ -1683,6 +1746,9 @@ fn run_sweep(c: &Case) -> Obs {
         Err((t, d)) => return Obs::fail("-", &t, format!("seed={seed} {d}")),
     };
     let n = rf.n_calls;
+    if std::env::var("NV_C14_DEBUG").is_ok() {
+        eprintln!("sweep {fmt} {ending} seed={seed} N={n} bytes={} marks={:?}", rf.bytes.len(), rf.marks);
+    }
     let ks: Vec<usize> = if n <= 200 {
         (0..n).collect()
     } else {
